@@ -19,7 +19,7 @@ ASSUME = ["at most two promise copies and two task copies at a time",
 def run(tier):
     L = "11" if tier == "thorough" else "7"
     return enum_check(PROP, HARNESS, tier, "exploration", RULE, ASSUME, args=["--opt", "len=" + L],
-                      witness=["invoked=0", "invoked=1", "excluded_user_cycles"])
+                      witness=["invoked=0", "invoked=1", "excluded_user_cycles", "late_continuations"])
 
 
 def replay(path):
